@@ -141,6 +141,13 @@ def gen_configs(seed: int, n: int, nx_max: int, families: str = "all") -> list[d
         nx = int(rng.choice([3, 4, 5, 8, 13, 20, 30, 50, 80, 150, 400])) if nx_max >= 400 else \
             int(rng.choice([3, 4, 5, 8, 13, 20, 30, 50, 80]))
         nx = min(nx, nx_max)
+        # rounding of the solve grows like cond(A) ~ nx^2 and is measured relative to the window m_i - m_f, which shrinks
+        # with p_f/p_i -> 1: the two extremes are explored separately so that the 1e-9 tolerance stays a rounding level
+        if ratio >= 0.99:
+            nx = min(nx, 50)
+        elif nx > 100 and ratio > 0.9:
+            ratio = float(rng.uniform(0.05, 0.9))
+            pf = max(lo_p, ratio * pi)
         grid = str(rng.choice(["uniform", "quadratic", "geometric", "random", "jumpy", "huge", "drift", "tiny", "intdays", "f32"]))
         nt = int(rng.integers(3, 120)) if nx > 100 else int(rng.integers(3, 400))
         if ratio >= 0.99:
